@@ -272,6 +272,20 @@ func (f *Frame) applyContract(ct *Contract, fn *ssa.Function, sig *types.Signatu
 		}
 		f.oblige("requires", fmt.Sprintf("%s#%d][%s", short, ord, tag), t, pos, r.Text)
 	}
+	// termination of recursion: the callee's variant is strictly below ours
+	if fn != nil && ct.Decreases != nil && f.top && f.contract != nil && f.contract.Decreases != nil && c.W.reaches(fn, c.Fn) {
+		env.goal = true
+		cv, err1 := env.intTerm(ct.Decreases.E)
+		env.goal = false
+		me := f.specEnv(f.entry, f.entry)
+		me.locals = false
+		mv, err2 := me.intTerm(f.contract.Decreases.E)
+		if err1 == nil && err2 == nil {
+			f.oblige("decreases", fmt.Sprintf("call %s#%d", short, ord), and(c.ile(c.idxLit(0), cv), c.ilt(cv, mv)), pos, "recursion variant: "+ct.Decreases.Text)
+		} else {
+			c.unsupported("recursion variant of %s: %v %v", short, err1, err2)
+		}
+	}
 	pre := st.clone()
 	// frame
 	if ct.HasAssigns || ct.Kind != "func" || ct.Pure {
@@ -820,4 +834,32 @@ func isConstLike(v ssa.Value) bool {
 		return true
 	}
 	return false
+}
+
+// reaches: can a call to from eventually call to (static call graph)?
+func (w *World) reaches(from, to *ssa.Function) bool {
+	seen := map[*ssa.Function]bool{}
+	var dfs func(fn *ssa.Function) bool
+	dfs = func(fn *ssa.Function) bool {
+		if fn == to {
+			return true
+		}
+		if seen[fn] || len(seen) > 400 {
+			return false
+		}
+		seen[fn] = true
+		for _, b := range fn.Blocks {
+			for _, ins := range b.Instrs {
+				if ci, ok := ins.(ssa.CallInstruction); ok {
+					if callee := ci.Common().StaticCallee(); callee != nil && callee.Pkg != nil && strings.HasPrefix(callee.Pkg.Pkg.Path(), w.ModPath) {
+						if dfs(callee) {
+							return true
+						}
+					}
+				}
+			}
+		}
+		return false
+	}
+	return dfs(from)
 }
